@@ -29,6 +29,13 @@ ProbeErr(m) ==
        THEN "a text that fits the box is refused"
   ELSE ""
 
+(* a box that the template formats as a social security number (AFSpecial_Format(3)) only ever receives nine digits, *)
+(* with or without hyphens: texts = the non-blank values the driving line can yield (code points)                      *)
+IsSsnText(t) == LET d == SelectSeq(t, LAMBDA c : c # 45) IN Len(d) = 9 /\ \A j \in 1..Len(d) : d[j] >= 48 /\ d[j] <= 57
+FormatErr(m) == IF m.t_format = "ssn" /\ \E j \in 1..Len(m.texts) : ~IsSsnText(m.texts[j])
+                THEN "the template formats this box as a social security number but the driving line yields other text"
+                ELSE ""
+
 JudgeMap(m) ==
   IF ~m.t_exists THEN "the mapped PDF field does not exist in the template"
   ELSE IF ~m.line_exists THEN "the mapped line does not exist"
@@ -37,6 +44,7 @@ JudgeMap(m) ==
   ELSE IF m.kind = "button" /\ m.truev \notin SeqToSet(m.t_on) THEN "check-box export value " \o m.truev \o " is not one the template offers"
   ELSE IF m.kind = "text" /\ m.t_max >= 0 /\ m.maxlen # m.t_max THEN "length limit " \o ToString(m.maxlen) \o " differs from the template's " \o ToString(m.t_max)
   ELSE IF m.kind = "choice" /\ m.t_opts # <<>> /\ ~(SeqToSet(m.choices) \subseteq SeqToSet(m.t_opts)) THEN "choice list offers values the template does not have"
+  ELSE IF FormatErr(m) # "" THEN FormatErr(m)
   ELSE IF m.kind = "text" THEN ProbeErr(m)
   ELSE ""
 
